@@ -859,7 +859,8 @@ pub fn same_key(a: &Node, b: &Node) -> bool {
 /// Err when a merge value is not a mapping / (nested) sequence of mappings / null.
 pub fn resolve_merges(doc: &Node) -> Result<Node, String> {
     fn is_null(n: &Node) -> bool {
-        matches!(&n.kind, Kind::Scalar { value, style: Style::Plain } if matches!(value.as_str(), "" | "~" | "null" | "Null" | "NULL"))
+        matches!(&n.kind, Kind::Scalar { value, style: Style::Plain } if matches!(value.as_str(), "~" | "null" | "Null" | "NULL"))
+        // (an empty plain scalar is rendered as `""` by this renderer, which is not null)
     }
     /// flatten a merge value into its source mappings, in document order
     fn sources<'a>(v: &'a Node, out: &mut Vec<&'a Node>) -> Result<(), String> {
@@ -1012,4 +1013,15 @@ pub fn decorate(tree: &Node, script: &[u16], anchor_pct: u16, alias_pct: u16, un
     }
     let mut st = St { script, i: 0, bound: vec![] };
     go(tree, &mut st, anchor_pct, alias_pct, unbound_pct, true)
+}
+
+/// Expected value when every scalar is requested as a string (no schema inference takes part).
+pub fn to_u_strings(n: &Node) -> crate::untyped::U {
+    use crate::untyped::U;
+    match &n.kind {
+        Kind::Scalar { value, .. } => U::Str(value.clone()),
+        Kind::Seq { items, .. } => U::Seq(items.iter().map(to_u_strings).collect()),
+        Kind::Map { entries, .. } => U::Map(entries.iter().map(|(k, v)| (to_u_strings(k), to_u_strings(v))).collect()),
+        Kind::Alias(a) => U::Str(format!("*{a}")),
+    }
 }
